@@ -122,7 +122,9 @@ func (pr *diskProject) foreign(op, kind string) error {
 		}
 		return os.WriteFile(abs, append(data, []byte("/* foreign writer */\n")...), 0644)
 	}
-	return fmt.Errorf("no %s output in out/ to %s", kind, op)
+	// the model says the file is there; if the context under test failed to write it, the
+	// previous step has already reported that: a foreign writer has nothing to touch
+	return nil
 }
 
 func (pr *diskProject) apply(e DEdit) error {
@@ -283,7 +285,7 @@ func diskPhase(r *core.Run) {
 		if os.Getenv("C09_SKIP_DESIGN") != "" {
 			return
 		}
-		tlcrun.MustHold(r, tlcrun.Options{Module: "CacheDisk", Config: "CacheDisk.design.cfg", Workers: 2, TimeoutSec: r.Pick(1800, 3600)})
+		tlcrun.MustHold(r, tlcrun.Options{Module: "CacheDisk", Config: pickS(r, "CacheDisk.design3.cfg", "CacheDisk.design.cfg"), Workers: 2, TimeoutSec: r.Pick(1800, 3600)})
 		if r.Thorough() {
 			// the two mechanisms are necessary: without them the model violates the property
 			alt := map[string]string{}
@@ -329,9 +331,9 @@ func diskPhase(r *core.Run) {
 	}
 	sort.Slice(cases, func(i, j int) bool { return cases[i].String() < cases[j].String() })
 	total := len(cases)
-	// quick: every history of two edits is covered (as the prefix of a seeded choice of
-	// its extensions); thorough: all
-	if !r.Thorough() {
+	// every history of MaxEdits-1 edits is covered (as the prefix of a seeded choice of two of
+	// its extensions): quick MaxEdits = 3, thorough 4
+	{
 		byPrefix := map[string][]DCase{}
 		var order []string
 		for _, c := range cases {
@@ -356,7 +358,7 @@ func diskPhase(r *core.Run) {
 		return
 	}
 	var histories, steps, failing, diskDiffs, drift, repairs, foreign int64
-	core.Parallel(len(cases), r.Pick(6, 8), func(i int) {
+	core.Parallel(len(cases), r.Pick(3, 4), func(i int) {
 		c := cases[i]
 		osi := (i + int(r.Seed)) % len(diskOptSets)
 		out := replayDisk(filepath.Join(r.Scratch, fmt.Sprintf("d%d", i)), c, osi)
